@@ -173,6 +173,39 @@ CLAIMED = {
 NOT_YET = {}
 
 
+# document-level theorems added in the last third of the build: appended to the level text / replacing notes that went stale
+EXTRA_TEXT = {
+    'C02': ' Document level (C02Tree, C02Tok): C02_tree - for every cell parser and every text without surplus cells a successful import has exactly the skeleton of an '
+           'independent spine-path tracker (one stage per non-empty line, one node per cell, parent = the cell above on the same spine path, header = the ** cell of its spine); '
+           'C02_import_succeeds (such texts without *x always import); C02_tokens (every node carries the token its own spine\'s importer makes of its own cell). The harness '
+           'compares the real tree with the Lean tracker run on the text.',
+    'C03': ' Chords and every cell of the grammar: C03_chord, C03_cell. Document level (C03Doc): C03_export_of_text - dumps(loads(text)) is the grid of the text with each cell '
+           'replaced by the kern text of the token its own spine\'s importer made of it, unsupported spine types, global comments and all-null lines removed - a function of the '
+           'text through the tracker alone; the real export is compared with this Lean specification on every explored document.',
+    'C05': ' Document level: C13D.C13_export_of_text / C05_selection_keeps_grid (a category selection changes the text of cells, never which cells there are).',
+    'C06': ' Document level: C13D.C06_cell_projection, C06D.C06_spine_types_of_text (the spine-type query as a function of the text).',
+    'C07': ' Document level (C07Doc): C07_measure_index - for every parser and text the measure index is the list of stages holding a barline token (first: a CORE token).',
+    'C10': ' Document level (C10Doc, C10Text): C10_sigs_recurrence (every node\'s signature table is its parent\'s, updated with itself when it is a signature), C10_clef_in_force, '
+           'clef_is_nearest (the clef the exporter uses = the nearest clef token at or above the cell on its spine path) and C10_export_of_text: every export without a measure range in '
+           'ALL SIX encodings is a function of the text (tracker skeleton + tokens + clef in force); compared with the real export on every explored option set.',
+    'C12': ' Document level (C12Doc, C12Iso): C12_errors_are_error_nodes (the error list = the error tokens of the tree in reading order with line and verbatim text), '
+           'C12_import_isolates, C12_isolation / C12_same_skeleton / TT_run_congr (texts that differ only in data cells have the same spine paths, skeleton and header table: a '
+           'damaged cell changes no other token).',
+    'C13': ' Document level (C13Doc): C13_export_of_text (all option sets without a range, the four clef-independent encodings; all six in C10T.C10_export_of_text) and '
+           'C13_cell_factorises (whether a cell survives depends on the spine selection alone; its text on categories and encoding alone).',
+    'C17': ' Document level (C17Tree): C17_listing_exactly_once - for every parser and every text without surplus cells the traversal of get_all_tokens visits every node of the tree '
+           'exactly once; C17_listing_length.',
+}
+NOTE_OVERRIDE = {
+    'C03': 'Trusted: Lean kernel, standard axioms, extract.py, harness. ANTLR parser = parameter (tokOf tie by correspondence). Open findings: F10 (separator characters in free text), '
+           'F16 (hidden barlines) are outside the hypotheses. Hypothesis of the document theorems: no surplus cells (wf, decidable, reported by the driver for every explored text).',
+    'C10': 'Trusted: Lean kernel, standard axioms, extract.py, harness; decimal formatting of the staff position is not modelled. Hypothesis on the parser\'s tokens (checked on every '
+           'explored document): a signature token is neither a barline nor a CORE token.',
+    'C02': 'Trusted: Lean kernel, standard axioms, extract.py, harness. Surplus cells are proved rejected when the previous line left live paths; after a line that terminates every '
+           'spine the code keeps the stale list (texts with cells below it are excluded by wf and by the property). Rows shorter than the live paths are accepted by code and tracker alike.',
+}
+
+
 def main():
     props = [json.loads(l) for l in (V / 'properties.jsonl').read_text().splitlines() if l.strip()]
     checks = []
@@ -181,6 +214,8 @@ def main():
         pid = p['id']
         if pid in CLAIMED:
             tech, text, note, ref = CLAIMED[pid]
+            text = text + EXTRA_TEXT.get(pid, '')
+            note = NOTE_OVERRIDE.get(pid, note)
             checks.append({
                 'property_id': pid,
                 'quick_cmd': f'./check {pid} quick',
